@@ -23,13 +23,27 @@ def short(s, n):
     return (s[:n] + "…") if len(s) > n else s
 
 
-print("| property | independently written change | what it needs to show | `./check <id> --tier quick` on the patched tree |")
-print("|---|---|---|---|")
+acc = {}
+pa = os.path.join(ROOT, "seeded", "RESULTS_repo_applied.json")
+if os.path.exists(pa):
+    acc = {r["property"]: r for r in json.load(open(pa))}
+
+
+def accv(pid):
+    r = acc.get(pid)
+    if r is None:
+        return "-"
+    a = ("VIOLATION, failing input" if r["failing_input_found"] else "VIOLATION, no-failing-input-found") if r["patched_violation"] else "**missed**"
+    return "%s (exit %s); restored tree: exit %s" % (a, r["patched_exit"], r["restored_exit"])
+
+
+print("| property | independently written change | what it needs to show | scratch copy (`tools/regress.py`) | applied to /repo itself (`tools/accept.py`) |")
+print("|---|---|---|---|---|")
 for d in sorted(glob.glob(os.path.join(ROOT, "seeded", "C*"))):
     pid = os.path.basename(d)
     m = json.load(open(os.path.join(d, "meta.json")))
     r = res.get("seeded/%s/patch.diff" % pid)
-    print("| %s | %s | %s | %s |" % (pid, short(m.get("summary", ""), 230).replace("|", "\\|"), short(m.get("needs", ""), 200).replace("|", "\\|"), verdict(r)))
+    print("| %s | %s | %s | %s | %s |" % (pid, short(m.get("summary", ""), 230).replace("|", "\\|"), short(m.get("needs", ""), 200).replace("|", "\\|"), verdict(r), accv(pid)))
 print()
 print("| property | reverse of fix | result |")
 print("|---|---|---|")
